@@ -47,6 +47,7 @@ struct RegistryWorld : World {
 	void gen(Rng &r, Plan &p, int tier) override {
 		int nops = (int) r.range(1, tier ? 150 : 60);
 		bool allocf = r.chance(1, 3);
+		p.set("initfault", r.chance(1, 6) ? r.range(1, 3) : 0);     // an allocation fails while the metatype table is set up
 		for (int i = 0; i < nops; ++i) {
 			Op op; unsigned k = (unsigned) r.below(24);
 			op.kind = k < 3 ? OP_ADD_BASIC : k < 6 ? OP_ADD_GENERIC : k < 10 ? OP_ADD_IFACE : k < 14 ? OP_ADD_META : k < 17 ? OP_LOOKUP_ID : k < 20 ? OP_LOOKUP_NAME : k < 22 ? OP_ALIAS : k == 22 ? OP_SWEEP : OP_FILL;
@@ -72,7 +73,10 @@ struct RegistryWorld : World {
 		switch (id) {
 		case 'c': return sizeof(char); case 'b': return 1; case 'y': return 1; case 'n': return 2; case 'q': return 2; case 'i': return 4; case 'u': return 4; case 'x': return 8; case 't': return 8;
 		case 'f': return sizeof(float); case 'd': return sizeof(double); case 'e': return sizeof(long double); case 's': return sizeof(char *);
-		case TypeReplyDataPtr: case TypeNodePtr: return sizeof(void *);
+		// every built-in id the header names (types.h, enum Types) - not only the ones the library's own size table lists
+		case TypeUnixSocket: return sizeof(int);
+		case TypeFilePtr: case TypeAddressPtr: case TypeReplyDataPtr: case TypeNodePtr: case TypeBufferPtr: return sizeof(void *);
+		case TypeVector: return sizeof(struct iovec);
 		case TypeValFmt: return sizeof(value_format); case TypeValue: return sizeof(value); case TypeProperty: return sizeof(property);
 		case TypeIdentifier: return sizeof(identifier); case TypeMetaRef: return sizeof(void *); case TypeArray: return sizeof(array); case TypeCommand: return sizeof(command);
 		}
@@ -121,10 +125,19 @@ struct RegistryWorld : World {
 		{ Sut s; verif_registry_reset(); }
 		ledger_reset();
 		g.total_allocs = 0;
-		// the built-in tables are created on first use; that happens here, before any fault is injected
-		// (an allocation failure during this one-time setup is outside the statement: it is about registrations)
-		{ Sut s; mpt_type_traits('c'); mpt_type_traits(0x41); mpt_type_traits(TypeValue); mpt_interface_traits(0x80); mpt_metatype_traits(0x100); }
+		// the built-in tables are created on first use; that happens here. In some runs an allocation fails during the set-up of the
+		// metatype table: that call may fail, but the table must not be left half made - the next use sets it up (or fails) cleanly, and
+		// no id handed out afterwards may be a built-in one
+		{ Sut s; mpt_type_traits('c'); mpt_type_traits(0x41); mpt_type_traits(TypeValue); mpt_interface_traits(0x80); }
+		const named_traits *early = 0;
+		if (p.get("initfault")) {
+			uint64_t fired; { Sut s((uint64_t) p.get("initfault")); early = mpt_type_metatype_add(0); fired = g.fired; }
+			if (fired) st.hit("fault:allocfail_in_table_setup");
+			if (early && (early->type <= 0x100 || early->type > 0x7ff)) fail("id-range", "a metatype registered while the table set-up ran out of memory got id %x, outside 0x101..0x7ff", (int) early->type);
+		}
+		{ Sut s; mpt_metatype_traits(0x100); }
 		reg.clear(); builtin_names();
+		if (early) { Entry e; e.kind = 3; e.named = false; e.size = sizeof(void *); e.traits = 0; reg[(int) early->type] = e; }
 		int used_traits = 0; std::set<int> seen_ids;
 		log.ev("registry");
 		auto add = [&](int kind, const std::string &nm, bool named, size_t size, uint64_t failn, bool quiet) -> int {
